@@ -14,26 +14,28 @@ PROP = dict(
          "for byte; 3600 / 20600 byte strings (damaged encodings, exhaustive border lead/continuation pairs) for the UTF-8 "
          "decoder vs str::from_utf8. Seeded C-API histories (260 quick / 3000 thorough, 20-70 ops: keys that learn, "
          "enumerate/has_next/get of all four iterators interleaved with every other call class, heap getters of both kinds, "
-         "frees incl. foreign and NULL pointers) in child processes under a layout-checking allocator; every context buffer "
-         "dumped to its capacity after every step. valgrind memcheck: F22 witnesses + clean twins (exact), 60 / 300 "
-         "disciplined histories (must be clean), thorough: 150 undisciplined histories (errors must be predicted). "
+         "frees incl. foreign and NULL pointers; every second history with mutations between enumerate and has_next/get; "
+         "keyboard-type walks up to ~300 reads past the end; chewing_set_selKey / chewing_Configure with selection-key arrays "
+         "holding Latin-1 codes 0x80..0xFF, 0, values beyond a byte and negative values, each followed by "
+         "chewing_config_get_str; chewing_phone_to_bopomofo into caller buffers of 0..19 bytes) in child processes under a layout-checking allocator with the "
+         "strict snapshot oracles; every context buffer dumped to its capacity after every step. valgrind memcheck: the 6 "
+         "former F22 witnesses + 4 twins, 60 / 300 random histories, thorough: 150 histories with mutations inside the "
+         "user-phrase enumeration - all must be clean. "
          "distinct = distinct record text",
     trusted_base=["kernel evaluation (`decide`) of facts about generated finite tables (6 buffers, 17 names, 42 symbols, "
                   "126-row function inventory); no native_decide",
                   "the reviewed lists in tools/extractors/capi.py (Editor methods that reach the dictionary / touch only "
                   "editor state / are read-only) — an unlisted method breaks the translator",
                   "valgrind memcheck and the harness's layout-checking GlobalAlloc as the observers of invalid accesses"],
-    assumptions=["ghost model: the allocator is modelled by ownership and validity, not addresses; `mutate` over-approximates "
-                 "(every call of a function that CAN reach learn/unlearn/reopen invalidates the borrowed iterator), so the "
-                 "model flags the language-level hazard; memcheck confirms it exactly on the witness corpus and is only "
-                 "required to be clean where the model says safe",
+    assumptions=["ghost model: the allocator is modelled by ownership and validity, not addresses; since the F22 fix the model "
+                 "calls every history safe, so memcheck is required to be clean on every history it runs",
                  "'the process performs no invalid access' is inferred through the validated ghost model and Rust's type "
                  "system for the safe code; not a theorem",
                  "allocator contract: a fresh block is never placed at the address of a live result; chewing_free itself has "
                  "no precondition in the model (after fix aeeff30 any pointer may be passed any number of times)",
                  "background dictionary reloads (the schedules of the quantifier) are covered only as far as the reload "
                  "inside a learning key event; the snapshot thread works on a clone and is not modelled",
-                 "known finding F22 (user-phrase iterator borrows the dictionary): refutation + partial theorem; known "
+                 "known "
                  "finding F35 (pre-edit longer than the 256-byte buffer => static text is a truncated prefix of the heap text)"],
 )
 
@@ -43,18 +45,28 @@ MANIFEST = dict(
          "NUL-terminated, holds the longest whole-character prefix that fits (valid UTF-8, decodes to that prefix) and "
          "equals the heap variant's text whenever the text is shorter than the buffer; 'static = heap' is refuted for "
          "every fixed capacity (F35) and proved under utf8Len < cap; keyboard names < 32 and syllable text < 16 by kernel "
-         "evaluation of regenerated tables. (2) Ghost ownership model of the context (OWNED registry, three collected "
-         "iterators, the borrowing user-phrase iterator with Peekable's cache, dictionary generation): collected iterators "
-         "can never be invalidated (all states, all ops); undefined behaviour arises only at userphrase has_next/get or at "
-         "chewing_free; a history with no possibly-mutating call between enumerate and a later has_next/get is defined "
-         "at every step and keeps 'registry = live results with their true kinds' (so chewing_free releases every live result "
-         "and ignores every other pointer - NULL, foreign, interior, released before: free_total); F22 refutation with the concrete history. NOT a theorem: that the "
+         "evaluation of regenerated tables; chewing_config_get_str(selection_keys) hands out valid UTF-8 decoding to one "
+         "character per key, or ERROR exactly when a key's low byte is 0, for EVERY array of integers the legacy setters may "
+         "have stored (selkeys_getter_wellformed; raw_selkeys_refuted for a C string built from the raw bytes). (2) Ghost ownership model of the context (OWNED registry, FOUR collected "
+         "iterators with Peekable's cache - since fix e054b2f the user-phrase iterator owns a snapshot too, since fbe3953 the "
+         "keyboard-type counter is fused): every call other than chewing_free is defined in every state (collected_iters_safe, "
+         "ub_only_at); NO history of calls in any order with any arguments is undefined (history_defined, no premise; "
+         "userphrase_iter_safe = the former finding F22 at full strength; old_userphrase_iter_refuted keeps the witness for the "
+         "code before the fix); no other call changes a pending user-phrase enumeration (userphrase_iter_frame: snapshot); an "
+         "exhausted enumeration stays exhausted for any number of reads (kbtype_walk_total; old_kbtype_counter_refuted: the "
+         "256th read overflowed the old u8 counter); under the allocator contract every history keeps 'registry = live results "
+         "with their true kinds' (history_ok), so chewing_free releases every live result "
+         "and ignores every other pointer - NULL, foreign, interior, released before: free_total. NOT a theorem: that the "
          "real process performs no invalid access — inferred from the model, validated by (a) translator: buffer sizes, "
-         "copy_cstr / chewing_free shapes, inventory of 126 exported functions, 64 unsafe blocks, iterator sites, "
-         "classification of functions that can reach dictionary mutation; (b) correspondence: every returned buffer "
+         "copy_cstr / chewing_free / user-phrase iterator (owned Vec) / fused keyboard counter / selection-keys getter shapes, inventory of 126 exported functions, 65 unsafe blocks, iterator sites, "
+         "classification of functions that can reach dictionary mutation; (b) correspondence: every string the API hands out (static buffers, heap results incl. "
+         "chewing_config_get_str of both string options, caller buffers of userphrase_get and phone_to_bopomofo) checked "
+         "for NUL termination and valid UTF-8 by the harness, every returned buffer "
          "dumped to capacity and recomputed by the model, protocol results and registry replayed by the model per call, "
          "valgrind memcheck verdicts compared with the model's ub flag. Fixed: F35a (no terminator / cut character), F23 "
-         "(free with wrong layout), F23b (stale registry entries: free of a non-owned block, found by the harness). Known: F22, F35 (overlong pre-edit truncated).",
+         "(free with wrong layout), F23b (stale registry entries: free of a non-owned block, found by the harness), F22 (user-phrase "
+         "iterator borrowed the dictionary: use after free under memcheck), F42 (keyboard-type counter overflow). Known: F35 "
+         "(overlong pre-edit truncated).",
     note="Trusted: Lean kernel (axioms propext, Classical.choice, Quot.sound only), tools/extractors/capi.py with its reviewed "
          "method lists, the harness, valgrind, the compiled model driver. Schedules (background reload) are only covered at "
          "the granularity of one key event.",
